@@ -4,6 +4,7 @@ import (
 	"encoding/json"
 	"fmt"
 	"math/big"
+	"os"
 	"testing"
 
 	"verif/corp"
@@ -53,23 +54,18 @@ func (s plonkShape) build() (types.CommonCircuitData, *ref.Common, []ref.Gate, e
 		}
 		return cd, rc, gs, nil
 	}
-	var cd types.CommonCircuitData
-	rc := &ref.Common{}
-	cd.Config.NumWires, cd.Config.NumRoutedWires, cd.Config.NumChallenges = s.NumWires, s.NumRouted, s.NumChallenges
-	rc.Config.NumWires, rc.Config.NumRoutedWires, rc.Config.NumChallenges = s.NumWires, s.NumRouted, s.NumChallenges
-	cd.DegreeBits, cd.FriParams.DegreeBits, rc.FriParams.DegreeBits = s.DegreeBits, s.DegreeBits, s.DegreeBits
-	cd.QuotientDegreeFactor, rc.QuotientDegreeFactor = s.QDF, s.QDF
-	cd.NumPartialProducts, rc.NumPartialProducts = s.NumPP, s.NumPP
-	cd.NumConstants, rc.NumConstants = s.NumConstants, s.NumConstants
-	cd.NumGateConstraints, rc.NumGateConstraints = s.NumGateCons, s.NumGateCons
-	cd.KIs, rc.KIs = s.KIs, s.KIs
+	// The synthetic description reaches the circuit the way a real one does: as a plonky2-style
+	// common_circuit_data.json read by the repository's reader.  Fields the PLONK check must not
+	// depend on (and the duplicated copies of configuration values) carry decoy values that
+	// differ from the ones it must use.
 	selIdx := make([]uint64, len(s.Gates))
 	var gs []ref.Gate
+	var ids []string
 	for i, g := range s.Gates {
-		cd.GateIds = append(cd.GateIds, g.id())
+		ids = append(ids, g.id())
 		rg, err := ref.ParseGate(g.id())
 		if err != nil {
-			return cd, nil, nil, err
+			return types.CommonCircuitData{}, nil, nil, err
 		}
 		gs = append(gs, rg)
 		for gi := range s.GroupStarts {
@@ -78,13 +74,54 @@ func (s plonkShape) build() (types.CommonCircuitData, *ref.Common, []ref.Gate, e
 			}
 		}
 	}
-	cd.SelectorsInfo = *gates.NewSelectorsInfo(selIdx, s.GroupStarts, s.GroupEnds)
-	rc.SelectorsInfo.SelectorIndices = selIdx
+	groups := []map[string]any{}
 	for gi := range s.GroupStarts {
-		rc.SelectorsInfo.Groups = append(rc.SelectorsInfo.Groups, struct {
-			Start uint64 `json:"start"`
-			End   uint64 `json:"end"`
-		}{s.GroupStarts[gi], s.GroupEnds[gi]})
+		groups = append(groups, map[string]any{"start": s.GroupStarts[gi], "end": s.GroupEnds[gi]})
+	}
+	d := uint64(len(s.Gates))%3 + 1
+	fc := func(off uint64) map[string]any {
+		return map[string]any{"rate_bits": 3 + off, "cap_height": 4, "proof_of_work_bits": 16 + off,
+			"reduction_strategy": map[string]any{"ConstantArityBits": []uint64{4, 5}}, "num_query_rounds": 28 - off}
+	}
+	kis := s.KIs
+	if kis == nil {
+		kis = []uint64{}
+	}
+	doc := map[string]any{
+		"config": map[string]any{"num_wires": s.NumWires, "num_routed_wires": s.NumRouted, "num_constants": s.NumConstants + d,
+			"use_base_arithmetic_gate": true, "security_bits": 100, "num_challenges": s.NumChallenges, "zero_knowledge": false,
+			"max_quotient_degree_factor": s.QDF + d, "fri_config": fc(0)},
+		"fri_params":             map[string]any{"config": fc(d), "hiding": false, "degree_bits": s.DegreeBits, "reduction_arity_bits": []uint64{4, 4}},
+		"gates":                  ids,
+		"selectors_info":         map[string]any{"selector_indices": selIdx, "groups": groups},
+		"quotient_degree_factor": s.QDF, "num_gate_constraints": s.NumGateCons, "num_constants": s.NumConstants,
+		"num_public_inputs": 4 + d, "k_is": kis, "num_partial_products": s.NumPP,
+		"num_lookup_polys": 0, "num_lookup_selectors": 0, "luts": []any{},
+	}
+	raw, _ := json.Marshal(doc)
+	rc := &ref.Common{}
+	if err := json.Unmarshal(raw, rc); err != nil {
+		panic(err)
+	}
+	f, ferr := os.CreateTemp(os.Getenv("VERIF_OUT"), "c16-cd-*.json")
+	if ferr != nil {
+		panic(ferr)
+	}
+	f.Write(raw)
+	f.Close()
+	defer os.Remove(f.Name())
+	var cd types.CommonCircuitData
+	var rerr error
+	func() {
+		defer func() {
+			if r := recover(); r != nil {
+				rerr = fmt.Errorf("reader refused the synthetic description: %v", r)
+			}
+		}()
+		cd = types.ReadCommonCircuitData(f.Name())
+	}()
+	if rerr != nil {
+		return cd, nil, nil, rerr
 	}
 	return cd, rc, gs, nil
 }
